@@ -6,6 +6,11 @@ UTIL = 'crates/els/util.rs'
 CACHE = 'crates/els/file_cache.rs'
 
 
+def _accepts_crate(fx):
+    import inspect
+    return len(inspect.signature(fx.fn).parameters) >= 3
+
+
 def run(chk):
     fx = F.Facts()
     chk.rule('C28-R1', 'pos_to_byte_index counts columns in UTF-16 code units: every increment of the column counter derives from char::len_utf16 (or a 0x10000 comparison)')
@@ -122,5 +127,66 @@ def run(chk):
         else:
             chk.bad('C28-R5', where, 'code-without-VFS', '%s assigns the cached document text without VFS.update: the compiler reads a stale copy' % where, CACHE, writes[0]['l'])
     chk.floor('functions writing the cached text', writers, 2)
+    # ---- R7: the change notification always reaches the cached copy
+    chk.rule('C28-R7', 'every didChange notification is applied to the cached document: in Server::handle_notification, between the deserialisation of the parameters and '
+                       '`file_cache.incremental_update(params)` there is no `?` / return on a call that can fail (a callee that contains `?` or builds an Err); a skipped update leaves '
+                       'the server editing a stale copy from then on')
+    SRV = 'crates/els/server.rs'
+    hn = fx.fn(SRV, 'Server::handle_notification', 'els') if _accepts_crate(fx) else fx.fn(SRV, 'Server::handle_notification')
+    if chk.need(hn is not None, 'Server::handle_notification not found'):
+        arm = None
+        for m in T.walk(hn['body']):
+            if m.get('k') == 'Match':
+                for a in m['arms']:
+                    lits = [x.get('v', {}).get('str') for x in T.walk(a['pat']) if x.get('k') == 'PLit' and isinstance(x.get('v'), dict)]
+                    if 'textDocument/didChange' in lits:
+                        arm = a
+        if chk.need(arm is not None, 'the "textDocument/didChange" arm was not found'):
+            upd = [c for c in T.calls(arm['b']) if c.get('k') == 'MCall' and c['n'] == 'incremental_update']
+            if chk.need(len(upd) == 1, 'didChange: expected one incremental_update call (%d)' % len(upd)):
+                upd_line = upd[0]['l']
+                els_fns = {}
+                import json as _j, os as _o
+                idx = _j.load(open(_o.path.join(fx.dir, 'els', 'index.json')))
+                for rel in idx['files']:
+                    for f2 in fx.file(rel, 'els')['fns']:
+                        els_fns.setdefault(T.norm(f2['path']), f2)
+
+                def may_fail(fn2):
+                    for x in T.walk(fn2['body']):
+                        if x.get('k') == 'Match' and x.get('src') == 'Try':
+                            return 'contains `?`'
+                        if x.get('k') == 'Call' and (x.get('fn') or '').endswith('::Err') and x.get('dk', '').startswith('Ctor'):
+                            return 'builds an Err'
+                    return None
+                nexit = 0
+                for n in T.walk(arm['b']):
+                    if n.get('k') == 'Match' and n.get('src') == 'Try' and n.get('l', 0) <= upd_line:
+                        src = T.peel(n['x'])
+                        # `branch(..)` wrapper of the desugaring
+                        inner = [c for c in T.calls(src) if c.get('k') in ('MCall', 'Call') and not (c.get('fn') or '').endswith('branch')]
+                        callee = None
+                        for c in inner:
+                            nm = T.norm(T.callee(c) or '')
+                            if nm in els_fns:
+                                callee = nm
+                                break
+                        if any('deserialize' in (T.callee(c) or '') for c in inner):
+                            chk.ok('C28-R7', 'params', sample='the parameters are deserialised first: nothing to apply without them')
+                            continue
+                        nexit += 1
+                        if callee is None:
+                            chk.bad('C28-R7', 'Server::handle_notification', 'early-exit:%s' % T.show(src)[:30], 'didChange: `%s?` can leave the handler before incremental_update and '
+                                    'its callee is not a function of this crate whose failure modes can be read' % T.show(src)[:50], SRV, n.get('l'))
+                            continue
+                        why = may_fail(els_fns[callee])
+                        if why:
+                            chk.bad('C28-R7', 'Server::handle_notification', 'early-exit:%s' % callee.split('::')[-1], 'didChange runs `%s(..)?` before file_cache.incremental_update(params) '
+                                    'and %s %s: when it fails the edit is never applied and every later edit lands in a stale copy' % (callee.split('::')[-1], callee, why), SRV, n.get('l'))
+                        else:
+                            chk.ok('C28-R7', callee, sample='%s cannot fail (no `?`, no Err): the `?` after it never skips the update' % callee)
+                    if n.get('k') == 'Ret' and n.get('l', 0) < upd_line and not any(x is n for t_ in T.walk(arm['b']) if t_.get('k') == 'Match' and t_.get('src') == 'Try' for x in T.walk(t_)):
+                        chk.bad('C28-R7', 'Server::handle_notification', 'return-before-update', 'didChange returns before incremental_update', SRV, n.get('l'))
+                chk.floor('fallible steps before the update', nexit, 1)
     return ('Structural rules on els::util::pos_to_byte_index (units of the column counter, forms of returned indices, line clamp), on the no-range path of incremental_update '
             'and a coupled-state rule for the file cache / VFS. Equality of documents over edit histories is not decided.'), {}
